@@ -205,6 +205,24 @@ def gen_document(rng, path: str, *, hostile_ids: bool = False, stem_marker: floa
         if rng.random() < 0.4:
             formula = f"{m.getSpecies(s0).getCompartment()} * ({formula})"
         kl.setMath(_math(formula))
+    # legal ids that equal the helper names an importer may derive ('init_<symbol>', '<reaction>_stoich_<species>')
+    if rng.random() < 0.35:
+        cands = [f"init_{m.getInitialAssignment(i).getSymbol()}" for i in range(m.getNumInitialAssignments())]
+        for i in range(m.getNumReactions()):
+            rx = m.getReaction(i)
+            for lst in (rx.getListOfReactants(), rx.getListOfProducts()):
+                for j in range(lst.size()):
+                    cands.append(f"{rx.getId()}_stoich_{lst.get(j).getSpecies()}")
+        for cid in rng.sample(cands, min(2, len(cands))):
+            if m.getElementBySId(cid) is None:
+                p = m.createParameter()
+                p.setId(cid)
+                p.setConstant(False)
+                r = m.createAssignmentRule()
+                r.setVariable(cid)
+                r.setMath(_math(f"{rng.choice(params)} * 3 + 1.125"))
+                rules.append(cid)
+                feats.add("helper_name_collision")
     ok = L.writeSBMLToFile(doc, path)
     if not ok:
         raise RuntimeError("libsbml could not write the document")
